@@ -21,7 +21,7 @@ COQ_OP = {"plain": "OpPlain", "bool": "OpBool", "star": "OpStar", "plus": "OpPlu
 TREE_OP = {"plain": "plain", "optional": "bool", "zeroormore": "star", "oneormore": "plus"}
 LIST_MULTS = ("0..*", "1..*")
 CORPUS = os.path.join(core.VERIF, "corpus", "C02")
-LINK_EVERY = 4      # every n-th generated grammar also goes through the link check against the shared PEG core
+LINK_EVERY = 5      # every n-th generated grammar also goes through the link check against the shared PEG core
 # repetition separators: key -> (grammar text, the token sequences the separator can match; [] = it matches the empty string,
 # in which case Arpeggio puts no separator node into the parse tree)
 SEPS = {
@@ -336,7 +336,7 @@ def gen_case(r, i, thorough):
     for k in range(2):
         rr = r.split("mu%d" % k)
         inputs.append(mutate(r.choice(inputs[:3]), rr))
-    return {"body": b, "grammar": grammar_text(b), "auto_init": r.chance(0.5), "inputs": [" ".join(t) for t in inputs], "link": i % (2 if thorough else LINK_EVERY) == 0}
+    return {"body": b, "grammar": grammar_text(b), "auto_init": r.chance(0.5), "inputs": [" ".join(t) for t in inputs], "link": i % (3 if thorough else LINK_EVERY) == 0}
 
 
 def mk_case(body, inputs, auto_init=True, link=True):
